@@ -149,8 +149,15 @@ def shrink(tf, ck, case, k, still_diverges):
     return ops
 
 
+def default_kwargs_for(h):
+    """storage options of generated history h when the check has none of its own: one CSV history in four is opened
+    with access mode 'w+' (a fresh file either way; a reopen inside a history always uses the default mode)"""
+    return {"access_mode": "w+"} if h % 8 in (2, 7) else {}
+
+
 def run_tie(ck, tf, n_hist, profile, configs=CONFIGS, corpus=(), kwargs_for=None, extra_cases=()):
     """returns dict(divergences=[...], stats=...)"""
+    kwargs_for = kwargs_for or default_kwargs_for
     gen_seed = ck.seed
     cases, meta = [], []
     kinds, qshapes, errs, sizes, paths = Counter(), Counter(), Counter(), Counter(), Counter()
@@ -169,9 +176,10 @@ def run_tie(ck, tf, n_hist, profile, configs=CONFIGS, corpus=(), kwargs_for=None
     for (csv, auto, ops) in extra_cases:
         cases.append((csv, auto, ops, None))
         meta.append(("enumerated", len(cases)))
-    done = []
+    done, kws = [], []
     for ci, (csv, auto, ops, _) in enumerate(cases):
         kw = kwargs_for(meta[ci][1]) if (kwargs_for and meta[ci][0] == "gen") else None
+        kws.append(kw if csv else None)
         outs = dbimpl.run_history(tf, csv, auto, ops, str(ck.work / f"h{ci}"), kw)
         done.append((csv, auto, ops, outs))
         for o, x in zip(ops, outs):
@@ -197,7 +205,7 @@ def run_tie(ck, tf, n_hist, profile, configs=CONFIGS, corpus=(), kwargs_for=None
             continue
         for j in range(0, len(nums), 2):
             divergences.append((base + nums[j], nums[j + 1]))
-    return dict(cases=cases, meta=meta, divergences=divergences, failed_files=failed_files,
+    return dict(cases=cases, meta=meta, kws=kws, divergences=divergences, failed_files=failed_files,
                 stats=dict(op_kinds=dict(kinds), error_kinds=dict(errs), db_sizes=dict(sizes)))
 
 
@@ -281,7 +289,7 @@ def db_check(pid, tier, seed, profile, n_quick, n_thorough, prop_module, claims_
         csv, auto, ops, outs = cases[ci]
         if (ci, k) in mine:
             continue
-        ck.violation({"kind": "failing-input", "config": {"csv": csv, "auto_index": auto, "TZ": os.environ.get("TZ", "UTC")},
+        ck.violation({"kind": "failing-input", "config": {"csv": csv, "auto_index": auto, "TZ": os.environ.get("TZ", "UTC"), "storage_kwargs": res["kws"][ci] or {}},
                       "ops": ops[:k + 1], "first_differing_step": k, "implementation_output": outs[k], "spec_output": want,
                       "attributed_to": pid, "origin": res["meta"][ci],
                       "why": "the implementation's answer differs from the documented meaning (harness/pyspec.py) although it agrees with the Coq model"})
@@ -300,7 +308,7 @@ def db_check(pid, tier, seed, profile, n_quick, n_thorough, prop_module, claims_
                 k, spec = later[0]
                 ops, impl_out, genuine = cases[ci][2][:k + 1], outs[k], True
         replay = {"kind": "failing-input" if genuine else "correspondence-broken",
-                  "config": {"csv": csv, "auto_index": auto, "TZ": os.environ.get("TZ", "UTC")},
+                  "config": {"csv": csv, "auto_index": auto, "TZ": os.environ.get("TZ", "UTC"), "storage_kwargs": res["kws"][ci] or {}},
                   "ops": ops, "first_differing_step": k, "implementation_output": impl_out,
                   "spec_output": spec, "model_output_coq": model_outputs(ck, (csv, auto, ops, outs), k),
                   "attributed_to": pid, "origin": res["meta"][ci],
